@@ -47,6 +47,19 @@ class World:
             self.write(k)
         self.cache_file = os.path.join(self.mdir, name + ".pymoca_cache")
 
+    @classmethod
+    def restore(cls, sandbox, clock, name, files, late):
+        """The world of an earlier simulated process of the same run (nothing is written)."""
+        w = cls.__new__(cls)
+        w.sandbox, w.clock, w.name = sandbox, clock, name
+        w.mdir = os.path.join(sandbox, "m")
+        w.ldir = os.path.join(sandbox, "lib")
+        w.ent = cp.POOL[name]
+        w.files = {k: (dict(v[0]), bool(v[1])) for k, v in files.items()}
+        w.late = dict(late)
+        w.cache_file = os.path.join(w.mdir, name + ".pymoca_cache")
+        return w
+
     def path(self, key):
         where, fn = key.split(":")
         return os.path.join(self.mdir if where == "model" else self.ldir, fn)
@@ -113,7 +126,7 @@ class Engine:
     # -- runner interface ----------------------------------------------------------------------
     def configs(self, tier, prop):
         if prop == "C20":
-            return [("history", 600 if tier == "quick" else 40_000)]
+            return [("history", 600 if tier == "quick" else 40_000), ("codegen", 16 if tier == "quick" else 600)]
         if prop == "C19":
             n = len(MODELS) * len(cp.OPTION_SETS)
             return [("roundtrip", n * (2 if tier == "quick" else 40))]
@@ -132,7 +145,10 @@ class Engine:
         raise ValueError(prop)
 
     def chunk_size(self, config, tier):
-        return 40
+        return 1 if config == "codegen" else 40
+
+    def min_cap(self, plan):
+        return 25 if plan.get("kind") == "codegen" else 300
 
     def distinct_measure(self, prop):
         return {"C20": "history_states", "C19": "roundtrips", "C21": "crash_points_and_schedules"}[prop]
@@ -198,6 +214,9 @@ class Engine:
     def gen_plan(self, rng, config, tier, prop):
         if config == "history":
             return self.gen_history(rng)
+        if config == "codegen":
+            p = self.gen_history(rng, codegen=True)
+            return p
         if config == "roundtrip":
             return {"kind": "roundtrip", "vals_seed": rng.randrange(1 << 30), "third": rng.random() < 0.5,
                     "chdir": rng.random() < 0.5, "extra": rng.random() < 0.3}
@@ -214,8 +233,8 @@ class Engine:
                     "sched_seed": rng.randrange(1 << 62), "cost": [50, 2000]}
         raise ValueError(config)
 
-    def gen_history(self, rng):
-        name = rng.choice(MODELS)
+    def gen_history(self, rng, codegen=False):
+        name = rng.choice(MODELS if not codegen else ["Tank", "Ali", "Str", "UsesLib"])
         ent = cp.POOL[name]
         keys = ["model:" + f for f in ent["model"]] + ["lib:" + f for f in ent["lib"]]
         kinds = {"transfer": 6, "edit": 4}
@@ -243,11 +262,30 @@ class Engine:
             else:
                 ops.append({"op": "clock", "delta_s": rng.choice(CLOCK_DELTAS)})
         ops.append({"op": "transfer"})
-        return {"kind": "history", "model": name, "vals_seed": rng.randrange(1 << 30), "ops": ops,
+        plan = {"kind": "history", "model": name, "vals_seed": rng.randrange(1 << 30), "ops": ops,
                 "optset": rng.randrange(len(cp.OPTION_SETS)) if rng.random() < 0.5 else 0, "mode": "cache"}
+        if codegen:
+            # compiled shared libraries: every simulated process is a real child interpreter (dlopen state belongs to
+            # the OS process).  Short histories: a build costs seconds.
+            ops = [o for o in ops if o["op"] != "clock"][:6]
+            if not any(o["op"] == "edit" for o in ops):
+                ops.insert(1, {"op": "edit", "file": "model:" + next(iter(cp.POOL[name]["model"])), "vals": _vals(rng), "extra": False})
+            ops += [{"op": "transfer"}, {"op": "transfer"}]
+            # half of the runs stay clear of the known stale-dlopen finding: every transfer in a process of its own
+            avoid = rng.random() < 0.5
+            if avoid:
+                out = []
+                for o in ops:
+                    if o["op"] == "transfer" and out and out[-1]["op"] != "restart":
+                        out.append({"op": "restart"})
+                    out.append(o)
+                ops = out
+            plan.update(kind="codegen", mode="codegen", ops=ops, optset=0 if rng.random() < 0.6 else plan["optset"], avoid=avoid,
+                        hold_models=rng.random() < 0.7)
+        return plan
 
     def shrink_candidates(self, plan):
-        if plan["kind"] == "history":
+        if plan["kind"] in ("history", "codegen"):
             for cand in ddmin_list(plan["ops"]):
                 p = copy.deepcopy(plan)
                 p["ops"] = copy.deepcopy(cand)
@@ -312,6 +350,8 @@ class Engine:
             kind = plan["kind"]
             if kind == "history":
                 return self.run_history(plan)
+            if kind == "codegen":
+                return self.run_codegen(plan)
             if kind == "roundtrip":
                 return self.run_roundtrip(plan)
             if kind == "crash":
@@ -416,6 +456,149 @@ class Engine:
                     if viol:
                         break
         return self._result(plan, log, clock, counts, {"history_states": sorted(states)}, viol, len(fs.trace))
+
+    # ---- C20, compiled shared libraries: one real child interpreter per simulated process ---------------------------------
+    def run_codegen(self, plan):
+        import json
+        import subprocess
+        import sys
+
+        sandbox = util.new_sandbox()
+        clock = core.SimClock()
+        core.set_clock(clock)
+        log = core.EventLog()
+        counts = {}
+        world = World(sandbox, clock, plan["model"], plan["vals_seed"])
+        state = {"sandbox": sandbox, "model": plan["model"], "files": world.files, "late": world.late,
+                 "optset": plan["optset"], "label_i": 0, "pending": [], "have_cache": False, "clock_us": clock.now_us,
+                 "repo": procs.repo_root(), "hold_models": bool(plan.get("hold_models"))}
+        # segments: a restart / version operation ends the life of a simulated process
+        segs, cur = [], []
+        for op in plan["ops"]:
+            if op["op"] in ("restart", "version"):
+                segs.append(cur)
+                cur = [op]
+            else:
+                cur.append(op)
+        segs.append(cur)
+        viol = None
+        states = set()
+        opi0 = 0
+        child = os.path.join(os.path.dirname(os.path.abspath(__file__)), "_codegen_child.py")
+        for seg in segs:
+            if not seg:
+                continue
+            job = dict(state, ops=seg, opi0=opi0)
+            jf = os.path.join(sandbox, "job.json")
+            with fsim.REAL_OPEN(jf, "w") as f:
+                json.dump(job, f)
+            r = subprocess.run([sys.executable, child, jf], capture_output=True, text=True, timeout=900,
+                               env=dict(os.environ, PYTHONHASHSEED=os.environ.get("PYTHONHASHSEED", "0")))
+            out = None
+            for line in r.stdout.splitlines():
+                if line.startswith("SEGMENT-JSON "):
+                    out = json.loads(line[len("SEGMENT-JSON "):])
+            if out is None:
+                if r.returncode < 0 or r.returncode >= 128:
+                    viol = ("process_crashed", "api:transfer_model", ["codegen"], "the child interpreter died with status %d" % r.returncode)
+                    break
+                raise core.HarnessError("codegen child failed: %s" % (r.stderr[-800:],))
+            for ev in out["log"]:
+                log.add(*ev)
+            for k, v in out["counts"].items():
+                counts[k] = counts.get(k, 0) + v
+            states.update(out["states"])
+            state.update(out["state"])
+            opi0 += len(seg)
+            if out["viol"]:
+                v = out["viol"]
+                viol = (v[0], v[1], v[2], v[3])
+                break
+        clock.now_us = state["clock_us"]
+        return self._result(plan, log, clock, counts, {"history_states": sorted(states)}, viol, 0)
+
+    def codegen_segment(self, job):
+        """Executed in the child interpreter: the operations of one simulated process."""
+        sandbox = job["sandbox"]
+        clock = core.SimClock(job["clock_us"])
+        core.set_clock(clock)
+        log = []
+        counts = {}
+
+        def bump(k, n=1):
+            if n:
+                counts[k] = counts.get(k, 0) + n
+
+        world = World.restore(sandbox, clock, job["model"], job["files"], job["late"])
+        optset, label_i = job["optset"], job["label_i"]
+        pending = set(job["pending"])
+        have_cache = job["have_cache"]
+        built_in_this_proc = False
+        loaded_in_this_proc = False
+        states = set()
+        viol = None
+        proc = None
+        held = []  # a caller that keeps the models it got (knob hold_models): their shared libraries stay mapped
+        fs = fsim.FsSeam(sandbox, None, clock)
+        with util.capture_pymoca_log(), fs:
+            for k_, op in enumerate(job["ops"]):
+                opi = job["opi0"] + k_
+                clock.advance(5000)
+                k = op["op"]
+                log.append([clock.now_us, 0, "op", "%d %s" % (opi, k)])
+                if k == "restart":
+                    bump("probe:restart")
+                elif k == "version":
+                    if op["label"] != label_i:
+                        label_i = op["label"]
+                        pending.add("version")
+                elif k == "edit":
+                    key = op["file"]
+                    if key not in world.files or world.files[key] == (op["vals"], op["extra"]):
+                        continue
+                    world.files[key] = (op["vals"], op["extra"])
+                    world.write(key, world.edit_time_us())
+                    pending.add("lib_mtime" if key.startswith("lib:") else "source_mtime")
+                elif k == "add":
+                    if not world.late:
+                        continue
+                    key, _t = sorted(world.late.items())[0]
+                    del world.late[key]
+                    world.files[key] = (dict(a=2, b=3, c=4, d=5, e=6), False)
+                    world.write(key, world.edit_time_us())
+                    pending.add("added_file")
+                elif k == "options":
+                    if op["set"] != optset:
+                        optset = op["set"]
+                        pending.add("options")
+                elif k == "transfer":
+                    if proc is None:
+                        proc = procs.ApiProcess(LABELS[label_i])
+                    shape = ["codegen", sorted(pending), "same_process" if built_in_this_proc else "other_process",
+                             "library_loaded_before_in_this_process" if loaded_in_this_proc else "first_load_in_this_process",
+                             "models_held" if job.get("hold_models") else "models_dropped"]
+                    states.add(canon.digest((job["model"], optset, tuple(sorted(pending)), built_in_this_proc, loaded_in_this_proc,
+                                             have_cache, "codegen")))
+                    got, err = self.call(proc, world, optset, "codegen")
+                    is_cached = got is not None and type(got).__name__ == "CachedModel"
+                    log.append([clock.now_us, 0, "transfer", "cached" if is_cached else ("error" if err else "compiled")])
+                    if is_cached:
+                        bump("probe:codegen_hit")
+                    elif err is None:
+                        bump("probe:codegen_rebuild" if have_cache else "probe:codegen_build")
+                        pending = set()
+                        built_in_this_proc = True
+                        have_cache = os.path.exists(world.cache_file)
+                    viol = self.judge(world, optset, LABELS[label_i], got, err, shape, "op %d transfer (codegen)" % opi)
+                    if is_cached:
+                        loaded_in_this_proc = True
+                    if job.get("hold_models") and got is not None:
+                        held.append(got)
+                    if viol:
+                        break
+        return {"viol": list(viol) if viol else None, "log": log, "counts": counts, "states": sorted(states),
+                "state": {"files": {k: [v[0], v[1]] for k, v in world.files.items()}, "late": world.late, "optset": optset,
+                          "label_i": label_i, "pending": sorted(pending), "have_cache": have_cache, "clock_us": clock.now_us}}
 
     # ---- C19: save -> restart -> load ---------------------------------------------------------------------
     def run_roundtrip(self, plan):
